@@ -15,3 +15,4 @@ import ZbossModel.Props.C01
 #print axioms Zboss.Rx.C01_complete
 #print axioms Zboss.Rx.mem_delivered
 #print axioms Zboss.Rx.C01_complete_prompt
+#print axioms Zboss.Rx.C01_complete_prompt_any_state
